@@ -9,7 +9,8 @@ use crate::act::{self, Action};
 use crate::evidence::{Found, Outcome};
 use crate::health::{self, Req};
 use crate::refmodel::{self as rf, Q};
-use crate::svm::Store;
+use crate::ix;
+use crate::svm::{process_tx, Store, Tx};
 use crate::world::{self, *};
 use fixed::types::I80F48;
 use num_traits::{Signed, ToPrimitive, Zero};
@@ -65,6 +66,38 @@ pub enum Variant {
     AssetShareBelowOne,
     /// interest accrued everywhere: share values 1.2 .. 1.3
     SharesAboveOne,
+    /// nobody touched the two banks for 180 days although both are heavily borrowed: eligibility and the
+    /// improvement are judged at the share values the liquidation itself brings up to date
+    StaleBanks,
+    /// the liquidatee also owes a little to a second bank; both debt banks list the collateral's e-mode tag
+    /// with different weights (0.85/0.95 and 0.70/0.90): the least favourable entry applies. The second
+    /// bank's address sorts above / below the first one's
+    EmodeTwoLiabsAbove,
+    EmodeTwoLiabsBelow,
+}
+
+fn emode_entry(tag: u16, i: f64, m: f64) -> marginfi_type_crate::types::EmodeEntry {
+    marginfi_type_crate::types::EmodeEntry { collateral_bank_emode_tag: tag, flags: 0, pad0: [0; 5], asset_weight_init: I80F48::from_num(i).into(), asset_weight_maint: I80F48::from_num(m).into() }
+}
+
+fn emode_entries(v: &[marginfi_type_crate::types::EmodeEntry]) -> [marginfi_type_crate::types::EmodeEntry; marginfi_type_crate::types::MAX_EMODE_ENTRIES] {
+    let mut a = [emode_entry(0, 0.0, 0.0); marginfi_type_crate::types::MAX_EMODE_ENTRIES];
+    for (i, e) in v.iter().enumerate() {
+        a[i] = *e;
+    }
+    a
+}
+
+/// the state in which the reference judges health: for the stale variant, the two banks brought up to date by
+/// the real accrue instruction (which is what the liquidation does first)
+fn judged_state(c: &Cfg, w: &World, s: &Store) -> Store {
+    let mut t = s.clone();
+    if c.variant == Variant::StaleBanks {
+        for b in [0usize, 1] {
+            let _ = act::apply(w, &mut t, &Action::Accrue { b });
+        }
+    }
+    t
 }
 
 type Unused = _Unused;
@@ -106,7 +139,19 @@ pub fn build(c: &Cfg, tag: &str) -> Option<Built> {
         BankSpec { label: "L".into(), mint: mk_mint(&format!("c05l{}{}", c.pair.1, c.pair.3), c.pair.1, c.pair.3), oracle: pyth_spec(l_price, 0), config: lcfg },
         BankSpec { label: "C3".into(), mint: MintSpec::spl("c05c3", 6), oracle: pyth_spec(100_000_000, 0), config: ccfg },
     ];
-    let mut spec = WorldSpec::new(&format!("C05{tag}"), banks, &["u0", "u1", "seeder"]);
+    let mut banks = banks;
+    let emode2 = matches!(c.variant, Variant::EmodeTwoLiabsAbove | Variant::EmodeTwoLiabsBelow);
+    if emode2 {
+        let l_key = world::key(&format!("C05{tag}:bank:L"));
+        let want_above = c.variant == Variant::EmodeTwoLiabsAbove;
+        let label = (0..100_000).map(|i| format!("L2v{i}")).find(|l| (world::key(&format!("C05{tag}:bank:{l}")) > l_key) == want_above).unwrap();
+        let mut l2cfg = BankCfg::default();
+        l2cfg.liability_weight_init = I80F48::from_num(1.5);
+        l2cfg.liability_weight_maint = I80F48::from_num(c.liab_w_maint);
+        banks.push(BankSpec { label, mint: MintSpec::spl("c05l2", 6), oracle: pyth_spec(100_000_000, 0), config: l2cfg });
+    }
+    let users: &[&str] = if c.variant == Variant::StaleBanks { &["u0", "u1", "seeder", "whale"] } else { &["u0", "u1", "seeder"] };
+    let mut spec = WorldSpec::new(&format!("C05{tag}"), banks, users);
     spec.user_funding_whole = if c.pair.0 >= 18 || c.pair.1 >= 18 { 10 } else { 100_000_000 };
     let (w, mut s) = build_world(&spec);
     let one = |b: usize| 10u128.pow(w.banks[b].decimals as u32);
@@ -114,54 +159,83 @@ pub fn build(c: &Cfg, tag: &str) -> Option<Built> {
     let go = |s: &mut Store, a: Action| act::apply(&w, s, &a).committed;
     // liquidity
     if !go(&mut s, Action::Deposit { u: 2, b: 1, amt: usd(1, l_price, 1_000_000), up_to_limit: None }) {
-        return None;
+        return { if std::env::var("VERIF_C05_DEBUG").is_ok() { eprintln!("c05 build failed at site 1: {:?}", c); } None };
     }
     if !go(&mut s, Action::Deposit { u: 2, b: 0, amt: usd(0, a_price, 1_000_000), up_to_limit: None }) {
-        return None;
+        return { if std::env::var("VERIF_C05_DEBUG").is_ok() { eprintln!("c05 build failed at site 2: {:?}", c); } None };
     }
     if !go(&mut s, Action::Deposit { u: 2, b: 2, amt: usd(2, 100_000_000, 1_000_000), up_to_limit: None }) {
-        return None;
+        return { if std::env::var("VERIF_C05_DEBUG").is_ok() { eprintln!("c05 build failed at site 3: {:?}", c); } None };
     }
     // liquidatee: $1000 collateral (init weight 0.5), $300 debt (init weight 1.5 -> $450 <= $500)
     if !go(&mut s, Action::Deposit { u: 0, b: 0, amt: usd(0, a_price, 1000) + 1, up_to_limit: None }) {
-        return None;
+        return { if std::env::var("VERIF_C05_DEBUG").is_ok() { eprintln!("c05 build failed at site 4: {:?}", c); } None };
     }
     if !go(&mut s, Action::Borrow { u: 0, b: 1, amt: usd(1, l_price, 300) + 1 }) {
-        return None;
+        return { if std::env::var("VERIF_C05_DEBUG").is_ok() { eprintln!("c05 build failed at site 5: {:?}", c); } None };
     }
     // liquidator
     match c.liquidator {
         Liquidator::LargeDepositInDebtBank => {
             if !go(&mut s, Action::Deposit { u: 1, b: 1, amt: usd(1, l_price, 100_000), up_to_limit: None }) {
-                return None;
+                return { if std::env::var("VERIF_C05_DEBUG").is_ok() { eprintln!("c05 build failed at site 6: {:?}", c); } None };
             }
         }
         Liquidator::SmallDepositInDebtBank => {
             if !go(&mut s, Action::Deposit { u: 1, b: 1, amt: usd(1, l_price, 20), up_to_limit: None }) {
-                return None;
+                return { if std::env::var("VERIF_C05_DEBUG").is_ok() { eprintln!("c05 build failed at site 7: {:?}", c); } None };
             }
             if !go(&mut s, Action::Deposit { u: 1, b: 2, amt: usd(2, 100_000_000, 200_000), up_to_limit: None }) {
-                return None;
+                return { if std::env::var("VERIF_C05_DEBUG").is_ok() { eprintln!("c05 build failed at site 8: {:?}", c); } None };
             }
         }
         Liquidator::OnlyOtherCollateral => {
             if !go(&mut s, Action::Deposit { u: 1, b: 2, amt: usd(2, 100_000_000, 200_000), up_to_limit: None }) {
-                return None;
+                return { if std::env::var("VERIF_C05_DEBUG").is_ok() { eprintln!("c05 build failed at site 9: {:?}", c); } None };
             }
         }
         Liquidator::ThinCollateral => {
             if !go(&mut s, Action::Deposit { u: 1, b: 2, amt: usd(2, 100_000_000, 40), up_to_limit: None }) {
-                return None;
+                return { if std::env::var("VERIF_C05_DEBUG").is_ok() { eprintln!("c05 build failed at site 10: {:?}", c); } None };
             }
         }
         Liquidator::DebtInAssetBank => {
             if !go(&mut s, Action::Deposit { u: 1, b: 2, amt: usd(2, 100_000_000, 200_000), up_to_limit: None }) {
-                return None;
+                return { if std::env::var("VERIF_C05_DEBUG").is_ok() { eprintln!("c05 build failed at site 11: {:?}", c); } None };
             }
             if !go(&mut s, Action::Borrow { u: 1, b: 0, amt: usd(0, a_price, 150) + 1 }) {
-                return None;
+                return { if std::env::var("VERIF_C05_DEBUG").is_ok() { eprintln!("c05 build failed at site 12: {:?}", c); } None };
             }
         }
+    }
+    if emode2 {
+        // liquidity in the second debt bank, a small second debt, and the two e-mode tables
+        if !go(&mut s, Action::Deposit { u: 2, b: 3, amt: usd(3, 100_000_000, 1_000_000), up_to_limit: None }) {
+            return { if std::env::var("VERIF_C05_DEBUG").is_ok() { eprintln!("c05 build failed at site 13: {:?}", c); } None };
+        }
+        if !go(&mut s, Action::Borrow { u: 0, b: 3, amt: usd(3, 100_000_000, 20) + 1 }) {
+            return { if std::env::var("VERIF_C05_DEBUG").is_ok() { eprintln!("c05 build failed at site 14: {:?}", c); } None };
+        }
+        let (g, em) = (w.group, w.roles.emode);
+        let cfgs = [(0usize, 7u16, emode_entries(&[])), (1, 0, emode_entries(&[emode_entry(7, 0.85, 0.95)])), (3, 0, emode_entries(&[emode_entry(7, 0.70, 0.90)]))];
+        for (b, tagv, ents) in cfgs {
+            let r = process_tx(&mut s, &Tx::one(ix::configure_bank_emode(g, em, w.banks[b].key, tagv, ents), &[em]));
+            if !r.ok() {
+                return { if std::env::var("VERIF_C05_DEBUG").is_ok() { eprintln!("c05 build failed at site 15 (bank {b}: {}): {:?}", crate::svm::err_name(r.code()), c); } None };
+            }
+        }
+    }
+    if c.variant == Variant::StaleBanks {
+        // the seeder borrows heavily from both banks, then half a year passes without anybody touching them
+        // a fourth user lends $3M of the third asset and borrows heavily from both banks
+        for a in [Action::Deposit { u: 3, b: 2, amt: usd(2, 100_000_000, 3_000_000), up_to_limit: None }, Action::Borrow { u: 3, b: 0, amt: usd(0, a_price, 500_000) }, Action::Borrow { u: 3, b: 1, amt: usd(1, l_price, 300_000) }] {
+            let r16 = act::apply(&w, &mut s, &a);
+            if !r16.committed {
+                return { if std::env::var("VERIF_C05_DEBUG").is_ok() { eprintln!("c05 build failed at site 16 ({:?}: {}): {:?}", a, crate::svm::err_name(r16.code), c); } None };
+            }
+        }
+        s.advance(86_400 * 180);
+        world::refresh_oracles(&mut s, &w);
     }
     match c.variant {
         Variant::AssetShareBelowOne => world::edit_bank(&mut s, &w.banks[0].key, |b| b.asset_share_value = (I80F48::from(b.asset_share_value) * I80F48::from_num(0.8)).into()),
@@ -179,13 +253,13 @@ pub fn build(c: &Cfg, tag: &str) -> Option<Built> {
     }
     // steer the liquidatee's maintenance health with the debt asset's price
     let acct = w.users[0].account;
-    let hm = |s: &Store| health::health(s, &acct, Req::Maintenance).unwrap().health();
+    let hm = |s: &Store| health::health(&judged_state(c, &w, s), &acct, Req::Maintenance).unwrap().health();
     let (mut lo, mut hi) = (l_price, l_price * 64);
     {
         let mut t = s.clone();
         set_price(&mut t, &w, 1, hi, 0);
         if !hm(&t).is_negative() {
-            return None;
+            return { if std::env::var("VERIF_C05_DEBUG").is_ok() { eprintln!("c05 build failed at site 18: {:?}", c); } None };
         }
     }
     // largest price with health >= 0
@@ -258,8 +332,9 @@ fn sig(c: &Cfg) -> String {
 
 fn judge(c: &Cfg, b: &Built, amt: u64, found: &mut Vec<Found>) -> (bool, u64) {
     let w = &b.w;
-    let mut t = b.s.clone();
-    let pre_h = health::health(&b.s, &w.users[0].account, Req::Maintenance).unwrap();
+    let mut t = b.s.clone(); // the program sees the stored (possibly stale) state
+    let pre_state = judged_state(c, w, &b.s);
+    let pre_h = health::health(&pre_state, &w.users[0].account, Req::Maintenance).unwrap();
     let r = act::apply(w, &mut t, &Action::Liquidate { liquidator: 1, liquidatee: 0, asset: 0, liab: 1, amt });
     let rep = json!({"model": "C05", "cfg": c, "amount": amt});
     let mut fail = |clause: &str, detail: String| found.push(Found { clause: clause.into(), sig: sig(c), detail, replay: rep.clone() });
@@ -282,7 +357,7 @@ fn judge(c: &Cfg, b: &Built, amt: u64, found: &mut Vec<Found>) -> (bool, u64) {
         fail("C05.still_not_positive", format!("maintenance health after liquidation is {:.9} > 0 (seized {})", rf::qf64(&post_h.health()), amt));
     }
     // no flips on the liquidatee
-    let (le_a0, le_l0) = (pos(&b.s, w, 0, 0), pos(&b.s, w, 0, 1));
+    let (le_a0, le_l0) = (pos(&pre_state, w, 0, 0), pos(&pre_state, w, 0, 1));
     let (le_a1, le_l1) = (pos(&t, w, 0, 0), pos(&t, w, 0, 1));
     if le_l1.a_sh >= rf::qone() || le_l1.l_sh < rf::qone() {
         fail("C05.debt_not_flipped", format!("liquidatee's debt position ended with asset shares {:.6} / liability shares {:.6}", rf::qf64(&le_l1.a_sh), rf::qf64(&le_l1.l_sh)));
@@ -296,8 +371,8 @@ fn judge(c: &Cfg, b: &Built, amt: u64, found: &mut Vec<Found>) -> (bool, u64) {
         fail("C05.liquidator_healthy", format!("liquidator ends with reference initial health {:.9}", rf::qf64(&lq_h.health())));
     }
     // the split
-    let (ab, lb) = (world::bank(&b.s, &w.banks[0].key), world::bank(&b.s, &w.banks[1].key));
-    let (oa, ol) = (health::oracle_ref(&b.s, &ab), health::oracle_ref(&b.s, &lb));
+    let (ab, lb) = (world::bank(&pre_state, &w.banks[0].key), world::bank(&pre_state, &w.banks[1].key));
+    let (oa, ol) = (health::oracle_ref(&pre_state, &ab), health::oracle_ref(&pre_state, &lb));
     if let (Ok(oa), Ok(ol)) = (oa, ol) {
         if let (Ok(pa), Ok(pl)) = (oa.biased(Req::Maintenance, false), ol.biased(Req::Maintenance, true)) {
             let (da, dl) = (rf::pow10(ab.mint_decimals as u32), rf::pow10(lb.mint_decimals as u32));
@@ -319,13 +394,13 @@ fn judge(c: &Cfg, b: &Built, amt: u64, found: &mut Vec<Found>) -> (bool, u64) {
             if rf::qabs(&(relief.clone() - q_lf.clone())) > al {
                 fail("C05.split_liquidatee_95", format!("liquidatee's debt fell by {:.9} but 95% of the seized value is {:.9} native units", rf::qf64(&relief), rf::qf64(&q_lf)));
             }
-            let (lq0, lq1) = (pos(&b.s, w, 1, 1), pos(&t, w, 1, 1));
+            let (lq0, lq1) = (pos(&pre_state, w, 1, 1), pos(&t, w, 1, 1));
             let paid = (lq0.asset.clone() - lq0.liab.clone()) - (lq1.asset.clone() - lq1.liab.clone());
             if rf::qabs(&(paid.clone() - q_ll.clone())) > al {
                 fail("C05.split_liquidator_975", format!("liquidator's debt-bank position fell by {:.9} but 97.5% of the seized value is {:.9}", rf::qf64(&paid), rf::qf64(&q_ll)));
             }
             // insurance: whole tokens to the vault, the fraction to outstanding insurance fees
-            let (n0, n1) = (rf::bank_nums(&b.s, &w.banks[1]), rf::bank_nums(&t, &w.banks[1]));
+            let (n0, n1) = (rf::bank_nums(&pre_state, &w.banks[1]), rf::bank_nums(&t, &w.banks[1]));
             let vault_out = n0.vault as i128 - n1.vault as i128;
             let fee_lo = rf::qfloor(&(fee.clone() - al.clone())).to_i128().unwrap_or(0).max(0);
             let fee_hi = rf::qfloor(&(fee.clone() + al.clone())).to_i128().unwrap_or(0);
@@ -352,7 +427,7 @@ fn judge(c: &Cfg, b: &Built, amt: u64, found: &mut Vec<Found>) -> (bool, u64) {
 }
 
 fn run_cfg(c: &Cfg, idx: usize) -> R {
-    let Some(b) = build(c, &idx.to_string()) else { return R { class: "unbuildable".into(), found: vec![], execs: 0 } };
+    let Some(b) = build(c, &idx.to_string()) else { return R { class: format!("unbuildable:{:?}", c.variant), found: vec![], execs: 0 } };
     let mut found = vec![];
     let mut execs = 0u64;
     let w = &b.w;
@@ -444,13 +519,15 @@ pub fn configs(tier: Tier) -> Vec<Cfg> {
         }
     }
     // departures from the flat world on a sub-product
-    for variant in [Variant::EmaBelowSpot, Variant::EmaAboveSpot, Variant::AssetShareBelowOne, Variant::SharesAboveOne] {
+    for variant in [Variant::EmaBelowSpot, Variant::EmaAboveSpot, Variant::AssetShareBelowOne, Variant::SharesAboveOne, Variant::StaleBanks, Variant::EmodeTwoLiabsAbove, Variant::EmodeTwoLiabsBelow] {
         for &pair in pairs {
             let vlevels: &[Level] = if tier == Tier::Quick { &[Level::SlightlyNegative, Level::Negative, Level::DeeplyNegative] } else { &levels };
             let vlqs: &[Liquidator] = if tier == Tier::Quick { &[Liquidator::LargeDepositInDebtBank, Liquidator::OnlyOtherCollateral] } else { &lqs };
             for &level in vlevels {
                 for &liquidator in vlqs {
-                    for &(aw, lw) in &[(0.9f64, 1.1f64), (1.0, 1.0)] {
+                    let emode_variant = matches!(variant, Variant::EmodeTwoLiabsAbove | Variant::EmodeTwoLiabsBelow);
+                    let vweights: &[(f64, f64)] = if emode_variant { &[(0.9, 1.1), (0.6, 1.25)] } else { &[(0.9, 1.1), (1.0, 1.0)] };
+                    for &(aw, lw) in vweights {
                         for &conf in &[0u64, 500] {
                             v.push(Cfg { pair, level, liquidator, asset_w_maint: aw, liab_w_maint: lw, asset_conf_pp: conf, variant });
                         }
